@@ -58,7 +58,9 @@ def run(res):
         choice = [rng.random() < 0.5 for _ in cb]
         ops = ["h"]
         for ch in choice:
-            ops += ["m", "b" if ch else "s"]
+            # freeing the consumed bytes between reading a chunk's metadata and skipping / decoding
+            # its body must not matter either
+            ops += ["m"] + (["f"] if rng.random() < 0.3 else []) + ["b" if ch else "s"] + (["f"] if rng.random() < 0.15 else [])
         ops += ["m"]
         skipq.append("rhist %s 100 w:%s %s" % (c["dt"], hdr + "".join(cb) + ftr, " ".join(ops))); skipmeta.append((c, choice))
     sa = lib.run_impl(subq)
